@@ -563,6 +563,22 @@ func e2eScenarios(c *Ctx) []e2eScenario {
 		}
 		out = append(out, sc)
 	}
+	// (1d) a retransmission that trails the accepted original by MORE than T4 (ACK lost, then further handshake
+	//      failures: k x T2 > T4 within the retry limit) is still the same block: single-block messages, so no open
+	//      partial is involved and T4 has nothing to discard (after seeded change C18c-2: a duplicate record that
+	//      expires after T4)
+	for _, fromE := range []bool{true, false} {
+		for _, fl := range []string{"aq", "aqq", "ao"} {
+			sc := e2eScenario{limitE: 3, limitH: 3, faults: fl, tag: "late-retransmission-beyond-T4", t2: 600 * time.Millisecond, t4: time.Second}
+			m := e2eMsg{stream: 1, fn: 1, payload: []byte{1, 2, 3}}
+			if fromE {
+				sc.msgsE = []e2eMsg{m, {stream: 1, fn: 3, payload: []byte{4}}}
+			} else {
+				sc.msgsH = []e2eMsg{m, {stream: 1, fn: 3, payload: []byte{4}}}
+			}
+			out = append(out, sc)
+		}
+	}
 	// (2) contention: both ends send at once; at most two faults, none of them a lost handshake character, slave limit 3
 	ck := "ftka"
 	for i := 0; i < c.Pick(24, 200); i++ {
